@@ -1,8 +1,10 @@
 package c01
 
 import (
+	"fmt"
 	"sync"
 	"testing"
+	"time"
 
 	"github.com/cilium/statedb"
 
@@ -51,6 +53,22 @@ func TestVerifRace_Readers(t *testing.T) {
 		tabs := s.Tables()
 		stop := make(chan struct{})
 		var wg sync.WaitGroup
+		// tables are registered while readers take snapshots and the writer has transactions open: the set of tables of a
+		// snapshot is part of what must be frozen
+		wg.Add(1)
+		go func() {
+			defer wg.Done()
+			for k := 0; k < 400; k++ {
+				select {
+				case <-stop:
+					return
+				default:
+				}
+				statedb.NewTable(s.DB, fmt.Sprintf("reg%dx%d", i%1000, k), dbsim.IDIndex)
+				r.Count("tables_registered_concurrently", 1)
+				time.Sleep(time.Duration(50+k%7*40) * time.Microsecond)
+			}
+		}()
 		for rd := 0; rd < 6; rd++ {
 			wg.Add(1)
 			go func(rd int) {
@@ -62,6 +80,7 @@ func TestVerifRace_Readers(t *testing.T) {
 					probes     [][]dbsim.Probe
 					transcript []uint64
 					rev        []uint64
+					ntables    int
 				}
 				var snaps []*snap
 				rechecks := 0
@@ -74,6 +93,7 @@ func TestVerifRace_Readers(t *testing.T) {
 					default:
 					}
 					sn := &snap{txn: s.DB.ReadTxn()}
+					sn.ntables = len(s.DB.GetTables(sn.txn))
 					for _, ti := range tabs {
 						m := dbsim.ModelFromSnapshot(sn.txn, ti.Table)
 						probes := ti.GenProbes(rng, m, 3)
@@ -90,6 +110,10 @@ func TestVerifRace_Readers(t *testing.T) {
 						snaps[rng.IntN(4)] = sn
 					}
 					for _, old := range snaps {
+						if n := len(s.DB.GetTables(old.txn)); n != old.ntables {
+							r.Violation("frozen-concurrent/table-set", i, map[string]any{"message": fmt.Sprintf("one and the same ReadTxn listed %d tables when taken and %d tables later (tables are being registered concurrently)", old.ntables, n)})
+							return
+						}
 						for ti, info := range tabs {
 							msg, c, tr := dbsim.Battery(old.txn, info.Table, old.models[ti], old.probes[ti], false)
 							rechecks++
